@@ -14,9 +14,15 @@ def run():
         "repeated / concurrent Close: any return value is accepted, it must return promptly, not crash and not notify twice (weaker reading)",
         "goroutine census: goroutines with a frame in github.com/aptpod/iscp-go/ and no harness frame, after the broker side of every incarnation was closed, retried for 2 s",
     ]
-    cfg = C.write_cfg("ConnLifecycle_c10.cfg", faults=1, fixed=True, close=True)
+    cfg = C.write_cfg("ConnLifecycle_c10.cfg", faults=1 if quick else 2, fixed=True, close=True, callers=("P1",) if quick else ("P1", "P2"))
     ctx.l1("ConnLifecycle", cfg, timeout=1500)
     os.remove(os.path.join(SPEC, cfg))
+    if not quick:
+        cfg = C.write_cfg("ConnLifecycle_c10_coded.cfg", faults=1, fixed=False, close=True)
+        r = ctx.l1("ConnLifecycle", cfg, timeout=1500, must_hold=False)
+        os.remove(os.path.join(SPEC, cfg))
+        if r.ok:
+            raise Inconclusive("as-coded ConnLifecycle model unexpectedly satisfies every invariant: the model lost its discriminating power")
     scs = C.c10_family("C10", quick)
     # model scripts that contain a close: Close at TLC-chosen points of a run with an outage
     gcfg = C.write_cfg("ConnLifecycle_c10_gen.cfg", faults=1, fixed=True, close=True, view=False, gen=True)
